@@ -1535,7 +1535,12 @@ impl TypedScenario for History {
             (r.range(1, 33) as usize, true)
         } else {
             let w = match tier {
-                Tier::Quick => *r.pick(&[1usize, 1, 2, 2, 3, 4, 4, 6, 8]),
+                Tier::Quick => {
+                    // 1 % sixteen-limb and 0.3 % thirty-two-limb histories: dear, but the wide-multiplication paths
+                    // (Karatsuba thresholds) are only reached there
+                    let k = r.below(1000);
+                    if k < 3 { 32 } else if k < 13 { 16 } else { *r.pick(&[1usize, 1, 2, 2, 3, 4, 4, 6, 8]) }
+                }
                 Tier::Thorough => {
                     let k = r.below(100);
                     if k < 3 { 32 } else if k < 8 { 16 } else { *r.pick(&[1usize, 2, 3, 4, 4, 6, 8]) }
